@@ -172,6 +172,8 @@ theorem consolidate_data_mem (l : List Update) (x : Update) (hx : x ∈ consolid
 /-- well-formed tuple: every `Float64` carries a 64-bit pattern. -/
 def TupleWF (t : Tuple) : Prop := AllP Value.WF t
 
+instance : DecidablePred TupleWF := fun t => by unfold TupleWF AllP; infer_instance
+
 theorem tuple_lawful : LawfulOn TupleWF Tuple.cmp := lex_lawful value_lawful
 
 def leD (a b : Update) : Prop := Tuple.cmp a.data b.data ≠ .gt
